@@ -281,6 +281,15 @@ func (p *sp) primary() Val {
 	if lit, ok := parseIntLit(t); ok {
 		return intV(lit)
 	}
+	switch t {
+	case "len", "old", "has", "ref", "off", "sliceof", "bufof", "abs", "min", "max":
+		if p.peek() != "(" { // a program variable that happens to share a builtin's name
+			if v, ok := p.env[t]; ok {
+				return v
+			}
+			return p.g.lookupName(p.st, t, p.env)
+		}
+	}
 	switch {
 	case t == "(":
 		a := p.iff()
@@ -361,6 +370,39 @@ func (p *sp) primary() Val {
 			return intV(a.T)
 		}
 		return intV(a.Ref)
+	case t == "isdyn" && p.peek() == "(": // isdyn(x, "full/pkg/path.Type"): x is non-nil with that dynamic type
+		p.next()
+		x := p.iff()
+		p.expect(",")
+		lit := p.next()
+		p.expect(")")
+		ts, err := strconv.Unquote(lit)
+		if err != nil {
+			panic(specErr{"spec: isdyn(x, \"type\")"})
+		}
+		return boolV(fmt.Sprintf("(and (not (= %s 0)) (= (%s %s) %s))", x.T, p.g.uf("dyntype", 1, "Int"), x.T, strID(ts)))
+	case t == "off":
+		p.expect("(")
+		a := p.iff()
+		p.expect(")")
+		return intV(a.Off)
+	case t == "sliceof": // sliceof(ref, len): the slice [0:len) of backing array ref
+		p.expect("(")
+		as := p.args()
+		if len(as) != 2 {
+			panic(specErr{"spec: sliceof(ref, len)"})
+		}
+		v := Val{Ref: as[0].T, Off: "0", Len: as[1].T, Kind: "slice"}
+		if _, isOld := p.env["$old"]; isOld {
+			v.Heap = p.g.entryHs
+		}
+		return v
+	case t == "bufof": // the append-only buffer behind a pointer / io.Writer value
+		p.expect("(")
+		a := p.iff()
+		p.expect(")")
+		_, isOld := p.env["$old"]
+		return p.g.bufOf(p.st, a, isOld)
 	case t == "abs":
 		p.expect("(")
 		a := p.iff()
